@@ -405,6 +405,14 @@ class Gen:
         if self.ext and d > 0 and r < 0.08:
             lib = self.r.choice(["set", "xalan"])
             return xfn(lib, "has-same-node" if lib == "set" else "hasSameNodes", self.ns(d - 1), self.ns(d - 1))
+        if self.current and r < 0.06:
+            # XSLT 15: element-available / function-available / system-property (stylesheet context only)
+            c = self.r.random()
+            if c < 0.4:
+                return fn("element-available", lit(self.r.choice(["xsl:if", "xsl:for-each", "xsl:nonesuch", "xsl:template", "if", "xsl:value-of", "xsl:fallback"])))
+            if c < 0.8:
+                return fn("function-available", lit(self.r.choice(["key", "document", "nonesuch", "concat", "format-number", "current", "generate-id", "not", "xsl:key"])))
+            return bin_(self.r.choice(["=", ">="]), fn("system-property", lit("xsl:version")), num(1))
         if d <= 0 or r < 0.15:
             return fn(self.r.choice(["true", "false"]))
         if r < 0.5:
